@@ -32,6 +32,7 @@ def run(chk):
     constructor(chk, prog, names)
     read_write(chk, prog, names)
     who(chk, prog, names, cg, fa)
+    cc.provided_overrides(chk, prog, names)
     return chk.finish(EXPL)
 
 
